@@ -373,6 +373,10 @@ def gen_cases(rng, tier):
       for name in ("file_not_utf8_latin1_comment", "file_not_utf8_binary", "file_not_utf8_latin1_label", "unknown_target", "empty_definition"):
         if any(o[0] == name for o in OPS):
           cases.append({"kind": "mutant", "op": name, "target": target, "seed": seed, "route": "stdin", "locale": loc})
+  # a species that is no chemical element (a placeholder 'Xx') and therefore brings its own [Species] data, some of it ZERO
+  # (atomic number 0, mass 0): a value given is a value given whatever its truth value (seeded change C16r10 skipped them)
+  for ti, target in enumerate([t for t in ALL_TARGETS if bm.kind_of(t) in ("eam", "adp")]):
+    cases.append({"kind": "valid", "target": target, "seed": rng.randrange(1 << 30), "route": "main" if ti % 3 == 0 else "inproc", "placeholder_zero": 1 + ti % 2})
   # option values exactly as the reference manual lists them
   for target in ["DL_POLY", "DLPOLY", "DL_POLY_EAM_fs", "DL_POLY_EAM", "eam_adp", "excel", "excel_eam", "excel_eam_fs", "GULP", "LAMMPS_eam_alloy", "setfl", "LAMMPS", "setfl_fs"]:
     cases.append({"kind": "valid", "target": target, "seed": rng.randrange(1 << 30), "route": "main", "documented": True})
@@ -438,6 +442,13 @@ def run_case(case, ctx):
   if case["route"] == "main":
     ctx.count("cli_outcomes")
   if case["kind"] == "valid":
+    if case.get("placeholder_zero"):
+      bm.sec(items, "EAM-Embed")[1].append(["Xx", "as.polynomial 0.0 -1.0 0.05"])
+      bm.sec(items, "EAM-Density")[1].append(["Xx", "as.bornmayer 5.0 1.0"])
+      bm.sec(items, "Pair")[1].append(["Xx-Xx", "as.bornmayer 800.0 0.3"])
+      bm.sec(items, "Species")[1].extend([["Xx.atomic_number", "0"], ["Xx.atomic_mass", "0.0" if case["placeholder_zero"] == 2 else "12.5"],
+                                          ["Xx.lattice_constant", "4.05"], ["Xx.lattice_type", "fcc"]])
+      ctx.cls("placeholder_species_with_zero_data")
     r = classify(bm.items_text(items))
     ctx.count("valid_models_judged")
     ctx.nontrivial(True)
